@@ -451,10 +451,69 @@ def run_reentrant(acc, enf):
 ROLESETS_AB = [(), ('a',), ('b',), ('a', 'b')]
 
 
+def run_objects_on_files(acc):
+    """A check OBJECT handed to enforce() on an enforcer that gets its rules
+    from files and registered defaults: the references inside it resolve
+    against the policy as the files NOW say - on the very first call of a
+    fresh enforcer, and after the file was edited with no by-name call in
+    between."""
+    from oslo_policy import _parser, policy as P
+    exprs = ['rule:adm', 'rule:via', 'not rule:adm',
+             '(role:nobody or rule:via)', 'rule:reg', 'rule:nowhere']
+    for first_by_name in (False, True):
+        for expr in exprs:
+            w = world.FileWorld()
+            try:
+                w.write('policy.yaml', world.dumps_policy(
+                    {'adm': 'role:x', 'via': 'rule:adm', 'default': 'role:d'},
+                    'json'))
+                enf = P.Enforcer(world.new_conf(w.root, policy_dirs=[]))
+                enf.register_default(P.RuleDefault('reg', 'role:r'))
+                if first_by_name:
+                    enf.enforce('adm', {}, {'roles': []})
+                cur = {'adm': 'role:x', 'via': 'rule:adm',
+                       'default': 'role:d', 'reg': 'role:r'}
+                for step in (0, 1):
+                    if step:
+                        w.write('policy.yaml', world.dumps_policy(
+                            {'adm': 'role:y', 'via': 'rule:adm',
+                             'default': 'role:x'}, 'json'))
+                        cur.update({'adm': 'role:y', 'default': 'role:x'})
+                    chk = _parser.parse_rule(expr)
+                    for roles in ROLESETS + [('d',), ('r',)]:
+                        exp = ref_decide(dict(cur, p=expr), 'default', 'p',
+                                         set(roles))
+                        acc.ev()
+                        got = world.decide(enf, chk, {},
+                                           {'roles': list(roles)})
+                        if got != ('ok', exp):
+                            acc.violation(
+                                'S4|object-on-files|%s|%s' % (
+                                    'fresh' if not (first_by_name or step)
+                                    else 'after-edit' if step else 'loaded',
+                                    'allows' if got == ('ok', True) else
+                                    'denies' if got[0] == 'ok' else got[1]),
+                                'enforce(<check %r>) with roles %r on a '
+                                'file-backed enforcer (%s) gives %r, the '
+                                'files say %r' %
+                                (expr, roles, 'after the file was edited'
+                                 if step else 'first call' if not
+                                 first_by_name else 'loaded', got, exp),
+                                {'expr': expr, 'roles': list(roles),
+                                 'step': step,
+                                 'first_by_name': first_by_name}, exp, got,
+                                'S4')
+                        acc.outcome('object-on-files-%s' % exp)
+                    acc.case('S4', True)
+            finally:
+                w.destroy()
+
+
 def run_current_rule(acc):
     _register()
     enf = world.bare_enforcer()
     run_reentrant(acc, enf)
+    run_objects_on_files(acc)
     # parents are evaluated before the subclasses, and once more after them
     for kind in ('vrec4', 'vrec3', 'vrec43', 'vrec34', 'vrec4', 'vrec3',
                  'vrec4n', 'vrec4r', 'vduck4', 'vduck3'):
